@@ -4,7 +4,7 @@ SPEC = dict(
     pkg="./store", files=["store/c31_verif_test.go"],
     rule="real BeginWithRetry on a grid of 2 (thorough: 5x4) retry intervals (120-400 ms) x 3 (thorough: 4) timeouts x 8 holder release times, every point run until two runs agree (gate free, never released, and "
          "half-interval offsets on both sides of the deadline), plus real Store.Close (14 stores quick / 60 thorough) over {snapshot-on-close on/off} x {nothing / a write applied since the last snapshot} x "
-         "{gate held by a raw CheckAndSet owner, by a real Store.Backup streaming to a blocked client} x hold times 0 ms ... 12 s, and one gate-discipline case "
+         "{gate held by a raw CheckAndSet owner, by a real Store.Backup streaming to a blocked client} x hold times 0 ms ... 12 s, 16 holder-returned-=>-gate-free cases (backup in 5 formats and a user snapshot, destination failing at the first write / mid-copy / not at all, then Close) and one gate-discipline case "
          "(real Store.Snapshot and fsmSnapshot attempts while another owner holds the gate); non-trivial when the holder releases after the first poll and the caller then acquires; distinct by grid point",
     exhaustive=False,
     trusted=["time.Now / time.Sleep: only Sleep advances the model's clock (Begin and the deadline comparison take no time); a timeout that falls exactly on a poll instant is not exercised",
